@@ -13,3 +13,6 @@ CHECKS["C15"] = checks_tt.c15
 import checks_search
 for _p in ("C06", "C07", "C08"):
     CHECKS[_p] = checks_search.run
+import checks_heur
+for _p in ("C16", "C17", "C18"):
+    CHECKS[_p] = checks_heur.run
